@@ -21,7 +21,7 @@ import (
 
 // C14 — tags are recognised, matched and totalled as the specification defines.
 
-var c14Alphabet = []string{"a", "B", "ü", "1", "#", "=", "\"", "'", "_", "-", " ", ".", "中"}
+var c14Alphabet = []string{"a", "B", "ü", "1", "#", "=", "\"", "'", "_", "-", " ", ".", "中", "\uff12"} // U+FF12 FULLWIDTH DIGIT TWO: a Unicode decimal digit that is not one of the specification's digits 0-9
 var c14Queries = []string{"a", "#A", "b", "B", "ü", "Ü", "a=1", "a='1'", "a=\"1\"", "a=B", "a=b", "1", "_", "-", "a-", "中", "a=", "b=ü", "a=\" \"", "a='a'", "aB", "#ab=1"}
 
 // tag placements for the totals family
@@ -79,7 +79,7 @@ func init() {
 	fw.Register(&fw.Check{
 		ID:    "C14",
 		Title: "Tags are recognised, matched and totalled as the specification defines",
-		Rule: "S = ALL strings of <=6 (quick) / 7 (thorough) symbols over {a, B, ü, 1, #, =, \", ', _, -, space, ., 中} as record summary line, entry summary first line and continuation line " +
+		Rule: "S = ALL strings of <=6 (quick) / 7 (thorough) symbols over {a, B, ü, 1, #, =, \", ', _, -, space, ., 中, U+FF12 (a Unicode digit that is not 0-9)} as record summary line, entry summary first line and continuation line " +
 			"(through the summary constructors and through the real parser), each checked for the recognised tag list and against 22 tag queries; " +
 			"T = totals: one or two records with 3(+2) entries and every combination of 8 tag placements {none, #a, #A, #a=1, #a=2, #a #a, #b, mixed} at record level and on each entry (8192 documents), " +
 			"under the canonical map order for all and under every map-iteration order within the deviation bound (DFS over the Merge / aggregation map ranges: at most 1 (quick) / 2 (thorough) non-canonical orders per execution, each of them any of the n! permutations) for every 16th. non-trivial = contains '#'; distinct by text hash.",
